@@ -80,6 +80,8 @@ type Driver struct {
 	// Open counts the accepted publishes whose exchange did not close yet;
 	// guarded by World.Mu.
 	Open int
+	// OpenByLevel is Open per quality-of-service level; guarded by World.Mu.
+	OpenByLevel [3]int
 
 	// reader control
 	Manual     bool
@@ -170,6 +172,7 @@ func (d *Driver) PublishPub(p *Pub) *Pub {
 	} else if err == nil {
 		d.W.Mu.Lock()
 		d.Open++
+		d.OpenByLevel[p.Level]++
 		d.W.Mu.Unlock()
 		d.wg.Add(1)
 		go d.watch(p, x)
@@ -186,6 +189,7 @@ func (d *Driver) watch(p *Pub, x <-chan error) {
 		if !ok {
 			p.ClosedSeq = d.W.log(Event{Kind: "xchg.close", ID: p.N})
 			d.Open--
+			d.OpenByLevel[p.Level]--
 			d.W.Mu.Unlock()
 			d.W.cond.Broadcast()
 			return
